@@ -219,8 +219,16 @@ class Runner:
             with open(cfg, "w") as f:
                 f.write(config_text(probe, "git" if inp == "git" else "fs", case["reports"], case["exports"]))
             existing = {}
+            dangling = {}
             for e in case.get("existing", []):
                 existing[fname(e["t"])] = marker(e["len"])
+                if e.get("kind") == "dangling":
+                    # a destination that exists as a symbolic link to a file that does not exist (yet)
+                    tgt = os.path.join(cdir, "elsewhere", "target-" + fname(e["t"]))
+                    os.makedirs(os.path.dirname(tgt), exist_ok=True)
+                    os.symlink(tgt, os.path.join(out_dir, fname(e["t"])))
+                    dangling[fname(e["t"])] = tgt
+                    continue
                 with open(os.path.join(out_dir, fname(e["t"])), "wb") as f:
                     f.write(existing[fname(e["t"])])
             watched = [probe, cfg]
@@ -265,6 +273,13 @@ class Runner:
             for nme in names:
                 if nme not in present:
                     files.append({"name": nme, "state": "absent"})
+                    continue
+                if nme in dangling:
+                    pth = os.path.join(out_dir, nme)
+                    intact = os.path.islink(pth) and os.readlink(pth) == dangling[nme] and not os.path.exists(dangling[nme])
+                    files.append({"name": nme, "state": "existing" if intact else "other", "len": 0})
+                    if os.path.exists(dangling[nme]):
+                        extra.append("elsewhere/" + os.path.basename(dangling[nme]))
                     continue
                 with open(os.path.join(out_dir, nme), "rb") as f:
                     data = f.read()
@@ -452,6 +467,12 @@ class C14(PropBase):
                               [0, 5, sizes["balance"], sizes["balgrp"] + 1, sizes["register"] - 1]):
                         if sub:
                             out.append(self.mk(rng, "existing+fault", jname, inp, REPORTS, EXPORTS, limit=k, existing=ex))
+        # a destination that exists as a dangling symbolic link: exclusive creation must refuse it and must not
+        # create the link's target elsewhere
+        for jname in ("small",):
+            for t in REPORTS + EXPORTS:
+                out.append(self.mk(rng, "existing-dangling-symlink", jname, "file", REPORTS, EXPORTS,
+                                   existing=[{"t": t, "len": 0, "kind": "dangling"}]))
         # an existing file that is not a destination of this run stays as it is
         for inp in INPUTS:
             out.append(self.mk(rng, "existing-unplanned", "small", inp, ["balance"], ["identity"],
